@@ -25,6 +25,21 @@ Lemma K_cache_store {T} (N : Num T) (id : Z) (x : T) :
   lin_cache_read_m N x = x /\ lin_cache_read_b N x = x.
 Proof. repeat split. Qed.
 
+(* the per-source -> values broadcast helper of TrialDataManager: skeleton pinned, the shared-value test
+   is "length = 1", the length check is "length <> n_sources", a source's block has as many entries as
+   there are values with that source INDEX (so a source without values gets an empty block) *)
+Lemma K_bcast_helper (l ns n : Z) :
+  sh_bcast_sources = true /\ bc_is_shared l = (l =? 1)%Z /\ bc_bad_length l ns = negb (l =? ns)%Z /\ bc_count n = n.
+Proof. repeat split. Qed.
+Lemma bcast_shared_iff_length_1 {T} (xs : list T) :
+  bc_is_shared (zlen xs) = true <-> exists x, xs = [x] /\ forall s, bcast xs s = Ok x.
+Proof.
+  unfold bc_is_shared, zlen. split.
+  - intros H. apply Z.eqb_eq in H. destruct xs as [|x [|y r]]; cbn [length] in H; try lia.
+    exists x. split; [reflexivity|intros s; reflexivity].
+  - intros [x [-> _]]. reflexivity.
+Qed.
+
 Section CallStruct.
   Context {T : Type} (N : Num T).
 
